@@ -48,12 +48,19 @@ Section Await.
   (** First polling head at or after [c], counting from head [h] (for [h < c]). *)
   Definition first_head_from (h c : Z) : Z := h + poll * ((c - h + poll - 1) / poll).
 
-  (** The three kinds of event that can end an idle wait started at head [h]. *)
-  Definition cancel_head (h : Z) : option Z :=
+  (** When an idle loop that starts at head [h] can SEE the cancellation: at the
+      first polling head at or after [c].  If that head falls exactly on [c]
+      (the token is triggered at the very instant of a loop head) the head's
+      check may have run first, and the cancellation is seen one full poll
+      later - both are possible.  [c = h] with this head's check already done:
+      one poll later.  [None]: there is no token. *)
+  Definition cancel_heads (h : Z) : list (option Z) :=
     match cancel with
-    | Some c => if h <? c then Some (first_head_from h c)
-                else Some (h + poll)   (* c = h and this head's check ran first: seen one poll later *)
-    | None => None
+    | Some c => if h <? c then
+                  let f := first_head_from h c in
+                  if f =? c then [Some c; Some (c + poll)] else [Some f]
+                else [Some (h + poll)]
+    | None => [None]
     end.
 
   Definition min_opt (a : Z) (o : option Z) : Z :=
@@ -82,18 +89,18 @@ Section Await.
       (if maybe then cancelled_now else []) ++ deadline_alt ++
       match l with
       | [] =>
-          let hc := cancel_head h in
-          let e := min_opt D hc in
-          (if is_time hc e then [fin Cancelled e 1 log] else []) ++
-          (if D =? e then [fin Timeout D 0 log] else [])
+          flat_map (fun hc =>
+            let e := min_opt D hc in
+            (if is_time hc e then [fin Cancelled e 1 log] else []) ++
+            (if D =? e then [fin Timeout D 0 log] else [])) (cancel_heads h)
       | (a, m) :: l' =>
           if a <=? h then step m l' h
           else
-            let hc := cancel_head h in
-            let e := min_opt (Z.min a D) hc in
-            (if a =? e then step m l' a else []) ++
-            (if is_time hc e then [fin Cancelled e 1 log] else []) ++
-            (if D =? e then [fin Timeout D 0 log] else [])
+            flat_map (fun hc =>
+              let e := min_opt (Z.min a D) hc in
+              (if a =? e then step m l' a else []) ++
+              (if is_time hc e then [fin Cancelled e 1 log] else []) ++
+              (if D =? e then [fin Timeout D 0 log] else [])) (cancel_heads h)
       end.
 
   Definition clamp (t0 : Z) (x : Z * inmsg) : Z * inmsg := (Z.max t0 (fst x), snd x).
